@@ -153,9 +153,11 @@ func c18Body(c c18cfg, controlled bool, leak *map[string]int) func(w *World) {
 		if controlled {
 			w.S.SetWindow(false)
 		}
-		// the proxy must still answer commands and requests afterwards
+		// the proxy must still answer commands and requests afterwards, also for the service the commands worked on
 		w.List()
 		w.Do(ReqSpec{ID: "after", Host: "b.example.com"})
+		w.Resume("s1")
+		w.Do(ReqSpec{ID: "after-s1", Host: host})
 		if controlled && leak != nil {
 			// nothing keeps running on behalf of targets that are no longer (or never were) in service
 			from := w.Net.Mark("settle-start", "")
@@ -214,6 +216,16 @@ func c18Configs(tier string) []c18cfg {
 			}
 			if tier != "quick" || (i+j)%3 == 1 {
 				cfgs = append(cfgs, c18cfg{a, b, "plain+cookie", "flap"})
+			}
+		}
+	}
+	// the gate commands in both spawn orders (the default schedule runs the first one to completion first)
+	for _, a := range []string{"pause", "stop", "resume"} {
+		for _, b := range []string{"pause", "stop", "resume"} {
+			if a != b {
+				for _, pre := range []string{"running", "paused"} {
+					cfgs = append(cfgs, c18cfg{a, b, "one-plain", pre})
+				}
 			}
 		}
 	}
@@ -312,6 +324,9 @@ func checkC18(t *testing.T, job *Job, res *Result) {
 		for i, c := range c18Configs(tier) {
 			sc := c18Scenario(c)
 			if tier == "quick" && i%45 == 0 {
+				sc.Bounds = &Bounds{D: 2, S: 0}
+			}
+			if c.b != "none" && c.clients == "one-plain" {
 				sc.Bounds = &Bounds{D: 2, S: 0}
 			}
 			if c.b == "none" {
